@@ -503,6 +503,429 @@ func genFacts(p *pkgInfo) string {
 		b.WriteString("\n")
 	}
 	b.WriteString("]\n\n")
+	b.WriteString("structure Proto where\n  func : String\n  deferRedeem : Bool\n  nilBeforeCall : Bool\n  calls : Nat\n  deriving Repr, DecidableEq\n\n")
+	b.WriteString("/-- redeem protocol of the validators that own child slots -/\n")
+	b.WriteString("def redeemProtocol : List Proto := [\n")
+	pfs := protoFacts(p)
+	for i, f := range pfs {
+		fmt.Fprintf(&b, "  { func := %s, deferRedeem := %s, nilBeforeCall := %s, calls := %d }", leanStr(f.Func), leanBool(f.DeferRedeem), leanBool(f.NilBeforeCall), f.Calls)
+		if i < len(pfs)-1 {
+			b.WriteString(",")
+		}
+		b.WriteString("\n")
+	}
+	b.WriteString("]\n\n")
+	b.WriteString("/-- every `Redeem*` of the default pools: number of `Put` calls, and whether the shared empty result is let go first -/\n")
+	b.WriteString("def redeemFns : List (String × Nat × Bool) := [\n")
+	rfs := redeemFnFacts(p)
+	for i, f := range rfs {
+		fmt.Fprintf(&b, "  (%s, %d, %s)", leanStr(f.Func), f.Puts, leanBool(f.EmptyGuard))
+		if i < len(rfs)-1 {
+			b.WriteString(",")
+		}
+		b.WriteString("\n")
+	}
+	b.WriteString("]\n\n")
+	b.WriteString("/-- variables read in the same block after being handed to Merge*/mergeFor*/RedeemResult: (func, var, merge site, use site) -/\n")
+	b.WriteString("def useAfterMerge : List (String × String × String × String) := [\n")
+	ufs := useAfterMerge(p)
+	for i, f := range ufs {
+		fmt.Fprintf(&b, "  (%s, %s, %s, %s)", leanStr(f.Func), leanStr(f.Var), leanStr(f.MergeSite), leanStr(f.UseSite))
+		if i < len(ufs)-1 {
+			b.WriteString(",")
+		}
+		b.WriteString("\n")
+	}
+	b.WriteString("]\n\n")
+	rf := rexpFacts(p)
+	b.WriteString("structure RexpShape where\n  lookupKey : String\n  compileArg : String\n  insertKey : String\n  testKey : String\n  storeArg : String\n  lockPresent : Bool\n  unlockDeferred : Bool\n  loadAfterLock : Bool\n  onlyFreshWritten : Bool\n  copiesOld : Bool\n  mustLookupKey : String\n  mustCompileArg : String\n  deriving Repr, DecidableEq\n\n")
+	fmt.Fprintf(&b, "/-- shape of compileRegexp / mustCompileRegexp / cacheRegexp (rexp.go) -/\ndef rexpShape : RexpShape :=\n  { lookupKey := %s, compileArg := %s, insertKey := %s, testKey := %s, storeArg := %s,\n    lockPresent := %s, unlockDeferred := %s, loadAfterLock := %s, onlyFreshWritten := %s, copiesOld := %s,\n    mustLookupKey := %s, mustCompileArg := %s }\n\n",
+		leanStr(rf.LookupKey), leanStr(rf.CompileArg), leanStr(rf.InsertKey), leanStr(rf.TestKey), leanStr(rf.StoreArg),
+		leanBool(rf.LockPresent), leanBool(rf.UnlockDeferred), leanBool(rf.LoadAfterLock), leanBool(rf.OnlyFreshWritten), leanBool(rf.CopiesOld),
+		leanStr(rf.MustLookupKey), leanStr(rf.MustCompileArg))
+	b.WriteString("/-- every mention of a mutex-guarded package-level variable: (variable, function, site, inside a function that takes the lock) -/\n")
+	b.WriteString("def guardedAccess : List (String × String × String × Bool) := [\n")
+	afs := guardedAccessFacts(p)
+	for i, f := range afs {
+		fmt.Fprintf(&b, "  (%s, %s, %s, %s)", leanStr(f.Var), leanStr(f.Func), leanStr(f.Site), leanBool(f.Guarded))
+		if i < len(afs)-1 {
+			b.WriteString(",")
+		}
+		b.WriteString("\n")
+	}
+	b.WriteString("]\n\n")
 	b.WriteString("end VM.Generated\n")
 	return b.String()
+}
+
+// ------------------------------------------------------------ redeem protocol
+
+type protoFact struct {
+	Func          string
+	DeferRedeem   bool // deferred redeem of self (and children) guarded by the recycling option
+	NilBeforeCall bool // every child slot is released before the child's Validate is called
+	Calls         int  // number of (slot release, child call) pairs found
+}
+
+func containsCall(p *pkgInfo, n ast.Node, suffix string) bool {
+	found := false
+	ast.Inspect(n, func(m ast.Node) bool {
+		if c, ok := m.(*ast.CallExpr); ok {
+			if strings.HasSuffix(callName(c), suffix) {
+				found = true
+			}
+		}
+		return !found
+	})
+	return found
+}
+
+// slotRelease reports whether stmt is `if …recycleValidators { <slot> = nil }`
+func slotRelease(p *pkgInfo, st ast.Stmt) bool {
+	ifs, ok := st.(*ast.IfStmt)
+	if !ok || !strings.Contains(p.src(ifs.Cond), "recycleValidators") {
+		return false
+	}
+	for _, b := range ifs.Body.List {
+		as, ok := b.(*ast.AssignStmt)
+		if !ok || len(as.Rhs) != 1 || p.src(as.Rhs[0]) != "nil" {
+			return false
+		}
+	}
+	return len(ifs.Body.List) > 0
+}
+
+func protoFacts(p *pkgInfo) []protoFact {
+	names := []string{"SchemaValidator.Validate", "itemsValidator.Validate", "HeaderValidator.Validate", "ParamValidator.Validate",
+		"schemaPropsValidator.validateAnyOf", "schemaPropsValidator.validateOneOf", "schemaPropsValidator.validateAllOf",
+		"schemaPropsValidator.validateNot", "schemaPropsValidator.Validate"}
+	fns := p.funcs()
+	var out []protoFact
+	for _, name := range names {
+		fd := fns[name]
+		pf := protoFact{Func: name, NilBeforeCall: true}
+		if fd == nil || fd.Body == nil {
+			pf.NilBeforeCall = false
+			out = append(out, pf)
+			continue
+		}
+		// deferred redeem
+		ast.Inspect(fd.Body, func(n ast.Node) bool {
+			ifs, ok := n.(*ast.IfStmt)
+			if ok && strings.Contains(p.src(ifs.Cond), "recycleValidators") {
+				for _, st := range ifs.Body.List {
+					if d, ok := st.(*ast.DeferStmt); ok && containsCall(p, d, ".redeem") {
+						pf.DeferRedeem = true
+					}
+				}
+			}
+			return true
+		})
+		// in every block: a child call `<x>.Validate(...)` that is followed or preceded by a slot release
+		ast.Inspect(fd.Body, func(n ast.Node) bool {
+			blk, ok := n.(*ast.BlockStmt)
+			if !ok {
+				return true
+			}
+			for i, st := range blk.List {
+				if _, isIf := st.(*ast.IfStmt); isIf {
+					continue
+				}
+				if _, isFor := st.(*ast.RangeStmt); isFor {
+					continue
+				}
+				if _, isFor := st.(*ast.ForStmt); isFor {
+					continue
+				}
+				if !containsCall(p, st, ".Validate") {
+					continue
+				}
+				before, after := false, false
+				for j, o := range blk.List {
+					if slotRelease(p, o) {
+						if j < i {
+							before = true
+						} else if j > i {
+							after = true
+						}
+					}
+				}
+				if before || after {
+					pf.Calls++
+					if !before {
+						pf.NilBeforeCall = false
+					}
+				}
+			}
+			return true
+		})
+		out = append(out, pf)
+	}
+	return out
+}
+
+// ------------------------------------------------------------ Redeem* functions
+
+type redeemFnFact struct {
+	Func        string
+	Puts        int
+	EmptyGuard  bool // `if s == emptyResult { return }` precedes the Put
+}
+
+func redeemFnFacts(p *pkgInfo) []redeemFnFact {
+	fns := p.funcs()
+	keys := make([]string, 0)
+	for k := range fns {
+		if strings.Contains(k, "Pool.Redeem") {
+			keys = append(keys, k)
+		}
+	}
+	sort.Strings(keys)
+	var out []redeemFnFact
+	for _, k := range keys {
+		fd := fns[k]
+		rf := redeemFnFact{Func: k}
+		ast.Inspect(fd.Body, func(n ast.Node) bool {
+			if c, ok := n.(*ast.CallExpr); ok && strings.HasSuffix(callName(c), ".Put") {
+				rf.Puts++
+			}
+			if ifs, ok := n.(*ast.IfStmt); ok && strings.Contains(p.src(ifs.Cond), "emptyResult") && containsReturn(ifs.Body) {
+				rf.EmptyGuard = true
+			}
+			return true
+		})
+		out = append(out, rf)
+	}
+	return out
+}
+
+func containsReturn(b *ast.BlockStmt) bool {
+	for _, st := range b.List {
+		if _, ok := st.(*ast.ReturnStmt); ok {
+			return true
+		}
+	}
+	return false
+}
+
+// ------------------------------------------------------------ use after merge / redeem
+
+type uamFact struct {
+	Func, Var, MergeSite, UseSite string
+}
+
+var mergeNames = map[string]bool{"Merge": true, "MergeAsErrors": true, "MergeAsWarnings": true, "mergeForField": true, "mergeForSlice": true, "RedeemResult": true}
+
+func identsIn(n ast.Node) map[string]bool {
+	out := map[string]bool{}
+	ast.Inspect(n, func(m ast.Node) bool {
+		if id, ok := m.(*ast.Ident); ok {
+			out[id.Name] = true
+		}
+		return true
+	})
+	return out
+}
+
+func useAfterMerge(p *pkgInfo) []uamFact {
+	fns := p.funcs()
+	keys := make([]string, 0, len(fns))
+	for k := range fns {
+		keys = append(keys, k)
+	}
+	sort.Strings(keys)
+	var out []uamFact
+	for _, k := range keys {
+		fd := fns[k]
+		if fd.Body == nil {
+			continue
+		}
+		ast.Inspect(fd.Body, func(n ast.Node) bool {
+			blk, ok := n.(*ast.BlockStmt)
+			if !ok {
+				return true
+			}
+			for i, st := range blk.List {
+				// variables handed to a merge / redeem in this statement (top level of the block)
+				merged := map[string]ast.Node{}
+				switch st.(type) {
+				case *ast.ExprStmt, *ast.AssignStmt:
+				default:
+					// compound statements are visited block by block; a deferred merge happens at exit
+					continue
+				}
+				if _, isCompound := st.(*ast.IfStmt); isCompound {
+					continue
+				}
+				if _, isCompound := st.(*ast.ForStmt); isCompound {
+					continue
+				}
+				if _, isCompound := st.(*ast.RangeStmt); isCompound {
+					continue
+				}
+				ast.Inspect(st, func(m ast.Node) bool {
+					c, ok := m.(*ast.CallExpr)
+					if !ok {
+						return true
+					}
+					se, ok := c.Fun.(*ast.SelectorExpr)
+					if !ok || !mergeNames[se.Sel.Name] {
+						return true
+					}
+					for _, a := range c.Args {
+						if id, ok := a.(*ast.Ident); ok && id.Name != "nil" {
+							merged[id.Name] = c
+						}
+					}
+					return true
+				})
+				if len(merged) == 0 {
+					continue
+				}
+				for _, later := range blk.List[i+1:] {
+					// a re-assignment of the variable ends its old life
+					if as, ok := later.(*ast.AssignStmt); ok {
+						for _, l := range as.Lhs {
+							if id, ok := l.(*ast.Ident); ok {
+								if _, was := merged[id.Name]; was && !identsIn(as.Rhs[0])[id.Name] {
+									delete(merged, id.Name)
+								}
+							}
+						}
+					}
+					used := identsIn(later)
+					for v, site := range merged {
+						if used[v] {
+							out = append(out, uamFact{Func: k, Var: v, MergeSite: p.pos(site), UseSite: p.pos(later)})
+							delete(merged, v)
+						}
+					}
+				}
+			}
+			return true
+		})
+	}
+	return out
+}
+
+// ------------------------------------------------------------ regexp cache shape (rexp.go)
+
+type rexpFact struct {
+	LookupKey, CompileArg, InsertKey, TestKey, StoreArg string
+	LockPresent, UnlockDeferred, LoadAfterLock         bool
+	OnlyFreshWritten, CopiesOld                        bool
+	MustLookupKey, MustCompileArg                      string
+}
+
+func rexpFacts(p *pkgInfo) rexpFact {
+	var rf rexpFact
+	fns := p.funcs()
+	scanCompile := func(fd *ast.FuncDecl, compileFn string) (lookup, arg string) {
+		if fd == nil {
+			return
+		}
+		ast.Inspect(fd.Body, func(n ast.Node) bool {
+			switch x := n.(type) {
+			case *ast.IndexExpr:
+				if exprPath(x.X) == "cache" && lookup == "" {
+					lookup = p.src(x.Index)
+				}
+			case *ast.CallExpr:
+				if callName(x) == compileFn && len(x.Args) == 1 {
+					arg = p.src(x.Args[0])
+				}
+			}
+			return true
+		})
+		return
+	}
+	rf.LookupKey, rf.CompileArg = scanCompile(fns["compileRegexp"], "re.Compile")
+	rf.MustLookupKey, rf.MustCompileArg = scanCompile(fns["mustCompileRegexp"], "re.MustCompile")
+	fd := fns["cacheRegexp"]
+	if fd == nil {
+		return rf
+	}
+	lockPos, loadPos := token.NoPos, token.NoPos
+	rf.OnlyFreshWritten = true
+	ast.Inspect(fd.Body, func(n ast.Node) bool {
+		switch x := n.(type) {
+		case *ast.CallExpr:
+			switch callName(x) {
+			case "cacheMutex.Lock":
+				rf.LockPresent = true
+				lockPos = x.Pos()
+			case "reDict.Load":
+				if loadPos == token.NoPos {
+					loadPos = x.Pos()
+				}
+			case "reDict.Store":
+				if len(x.Args) == 1 {
+					rf.StoreArg = p.src(x.Args[0])
+				}
+			}
+		case *ast.DeferStmt:
+			if callName(x.Call) == "cacheMutex.Unlock" {
+				rf.UnlockDeferred = true
+			}
+		case *ast.BinaryExpr:
+			if x.Op == token.EQL {
+				if ie, ok := x.X.(*ast.IndexExpr); ok && exprPath(ie.X) == "cache" {
+					rf.TestKey = p.src(ie.Index)
+				}
+			}
+		case *ast.CompositeLit:
+			if _, ok := x.Type.(*ast.MapType); ok && len(x.Elts) == 1 {
+				if kv, ok := x.Elts[0].(*ast.KeyValueExpr); ok {
+					rf.InsertKey = p.src(kv.Key)
+				}
+			}
+		case *ast.AssignStmt:
+			for _, l := range x.Lhs {
+				if ie, ok := l.(*ast.IndexExpr); ok && exprPath(ie.X) != "newCache" {
+					rf.OnlyFreshWritten = false
+				}
+			}
+		case *ast.RangeStmt:
+			if exprPath(x.X) == "cache" && strings.Contains(p.src(x.Body), "newCache[k] = v") {
+				rf.CopiesOld = true
+			}
+		}
+		return true
+	})
+	rf.LoadAfterLock = lockPos != token.NoPos && loadPos != token.NoPos && lockPos < loadPos
+	return rf
+}
+
+// ------------------------------------------------------------ accesses to guarded package-level state
+
+type accessFact struct {
+	Var, Func, Site string
+	Guarded         bool
+}
+
+func guardedAccessFacts(p *pkgInfo) []accessFact {
+	guards := map[string]string{"defaultOpts": "defaultOptsMutex.Lock"}
+	fns := p.funcs()
+	keys := make([]string, 0, len(fns))
+	for k := range fns {
+		keys = append(keys, k)
+	}
+	sort.Strings(keys)
+	var out []accessFact
+	for _, k := range keys {
+		fd := fns[k]
+		if fd.Body == nil {
+			continue
+		}
+		for v, lock := range guards {
+			locked := containsCall(p, fd.Body, lock)
+			ast.Inspect(fd.Body, func(n ast.Node) bool {
+				if id, ok := n.(*ast.Ident); ok && id.Name == v {
+					out = append(out, accessFact{Var: v, Func: k, Site: p.pos(id), Guarded: locked})
+				}
+				return true
+			})
+		}
+	}
+	return out
 }
